@@ -5109,7 +5109,7 @@ def EBCM_discrete_from_graph(G, p, initial_infecteds=None,
         def psihat(x):
             return sum(Pk[k]*Sk0[k]*x**k/Nk[k] for k in Pk)
         def psihatPrime(x):
-            return sum(k*Pk[k]*Sk0[k]*x**(k-1)/Nk[k] for k in Pk)
+            return sum(k*Pk[k]*Sk0[k]*x**(k-1)/Nk[k] for k in Pk if k>0)
         phiS0 = SS*1./SX
         phiR0 = SR*1./SX
         #print('here',Sk0, len(initial_infecteds)/sum(Nk))
